@@ -175,7 +175,7 @@ PROPERTIES = {
         'rule': 'npm family: exhaustive desugaring-table sweep, hyphen ranges, conjunctions, multi-alternative ranges, each rendered canonically and with loose spellings, evaluated on the induced version universe; '
                 'the crate answer is compared with npm_admits (Coq specification, extracted) and with an independent Python reading; the parsed structure is compared with what the tables give for the syntax tree; '
                 'non-trivial = texts that admit at least one probed version',
-        'explanation': 'theorems: see Props/C01.v',
+        'explanation': 'theorems: compile(tree) is satisfied iff npm_admits(tree), outside D12/D13, for all versions in the domain; every table row is an interval with npm\'s bounds and tags; no range only if npm admits nothing; grammar output lies in the domain',
     },
     'C02': {
         'families': [{'name': 'andor', 'gen': FR.gen_andor, 'eval': FR.eval_andor}],
